@@ -265,6 +265,33 @@ def run(ctx):
                    f"adaptive_min_step is {T.show(ams)[:160] if ams else None}", disc="adaptive_min_step")
         ctx.decide(ep.heap.get((SELF, "adaptive")) == T.atom("adaptive"), "C06.opts", sample.ident, loc_of(sample), "the adaptive flag used by determine_beta is this call's option",
                    "determine_beta reads self.adaptive, which sample() does not set from its adaptive argument", disc="adaptive")
+    # ---- which option combinations make sample() raise: only "no n_steps and not adaptive" (data-validation raises aside)
+    def _norm(c, pol):
+        while c[0] == "not":
+            c, pol = c[1], not pol
+        return c, pol
+    n_raise = 0
+    for e in ep.events:
+        if e.func is sample and e.depth == 0 and e.callee.startswith("builtins.") and e.callee.endswith(("Error", "Exception")):
+            conds = [_norm(c, pol) for c, pol in e.conds]
+            taken = [(c, pol) for c, pol in conds if not (c[0] == "f" and c[1] == "any" and not pol)]
+            if any(c[0] == "f" and c[1] == "any" for c, _ in taken):
+                continue  # raised on NaN in the initial population's densities: input validation, not an option combination
+            n_raise += 1
+            want = {(("is", T.atom("n_steps"), T.NONE), True), (T.atom("adaptive"), False)}
+            ctx.decide(set(taken) == want, "C06.opts", sample.ident, loc_of(sample, e.node), "the option prologue raises only when neither n_steps nor adaptive is given",
+                       "sample() raises when " + " and ".join(("" if pol else "not ") + T.show(c)[:40] for c, pol in taken) + ": a valid combination of schedule options is rejected",
+                       disc=f"raise|{n_raise}")
+    ctx.floor("option raises in the prologue", n_raise, 1)
+    # ---- a fresh run starts from beta = 0 at iteration 0
+    if lpp:
+        pre = lpp[0]["pre"]
+        b0, i0 = pre.get("beta"), pre.get("iterations")
+        while i0 is not None and i0[0] == "or" and len(i0[1]) == 2 and T.const_value(i0[1][0]) is not None:
+            i0 = i0[1][0] if T.const_value(i0[1][0]) != 0 else i0[1][1]  # `k or d` with a constant k
+        ctx.decide(b0 is not None and T.const_value(b0) == 0 and i0 is not None and T.const_value(i0) == 0, "C06.opts", sample.ident, loc_of(sample),
+                   "a fresh run enters the loop with beta = 0 and the iteration counter at 0",
+                   f"a fresh run enters the loop with beta = {T.show(b0) if b0 else None}, iterations = {T.show(i0) if i0 else None}: the step cap / fixed step count is off", disc="start")
     if upd and isinstance(upd[0].ast, ast.Assign) and isinstance(upd[0].ast.value, ast.Call):
         kwn = {k.arg: (k.value.id if isinstance(k.value, ast.Name) else None) for k in upd[0].ast.value.keywords}
         posn = dict(zip(db.params[1:], [a.id if isinstance(a, ast.Name) else None for a in upd[0].ast.value.args]))
@@ -382,6 +409,9 @@ MUTANTS = [
     M("division by zero denominator", _B, "beta_min = 1.0\n            target_eff", "beta_min = 1.0\n            min_step = min_step / (beta_max - beta_min)\n            target_eff", "C06.div0"),
 ]
 MUTANTS += [
+    M("adaptive runs without n_steps rejected", _B, "elif not adaptive:\n            raise ValueError", "elif adaptive:\n            raise ValueError", "C06.opts"),
+    M("fixed schedules rejected unless adaptive", _B, "if n_steps is not None:\n            beta_step = 1 / n_steps", "if n_steps is not None and adaptive:\n            beta_step = 1 / n_steps", "C06.opts"),
+    M("iteration counter starts at one", _B, "beta = 0.0\n            iterations = 0", "beta = 0.0\n            iterations = 1", "C06.opts"),
     M("fixed step is zero", _B, "beta_step = 1 / n_steps", "beta_step = 0 / n_steps", "C06.opts"),
     M("default minimum step is a full step", _B, "min_step = 0.0\n                self.adaptive_min_step = False", "min_step = 1.0\n                self.adaptive_min_step = False", "C06.opts"),
     M("cap-derived minimum step halved", _B, "min_step = 1 / max_n_steps\n", "min_step = 0.5 / max_n_steps\n", "C06.opts"),
